@@ -93,3 +93,33 @@ def build_frame_obligations(ctx, rule):
     pay = st["S5"][0]["payload"]
     okp = pay[0] == "agg" and [models.field_path(x) for x in pay[2]] == ["package_type", "parts"]
     ctx.ob(rule, "build(): the result is made of exactly self.package_type and self.parts", okp, fn=key, site=st["S5"][0]["site"], detail=nshow(pay)[:160])
+
+
+STATIC_ANCHORS = ("is_valid_package_type", "copy_as_lowercase", "lowercase_in_place", "str_preview_mut", "changes_when_lowercased")
+
+
+def anchor_fns(facts):
+    """Functions the rules identify by role on the program as written; they stay calls in the inlined normal form."""
+    out = set(k for k in STATIC_ANCHORS if k in facts.bodies)
+    for k, f in facts.fns.items():
+        if f.get("name") == "search" and f.get("impl_self", "").startswith("qualifiers::Qualifiers"):
+            out.add(k)
+    try:
+        from . import faults
+        pm = models.parser_model(facts)
+        out.update(v for v in faults.roles(facts, pm).values() if v)
+    except Exception:
+        pass
+    try:
+        from . import C08
+        fk = C08.finish_key(facts)
+        out.add(fk)
+        out.update(C08.helper_roles(facts, fk).values())
+    except Exception:
+        pass
+    try:
+        from . import C12
+        out.update(C12.roles(facts).values())
+    except Exception:
+        pass
+    return out
